@@ -482,8 +482,28 @@ func restartScenario(sc Scenario, dir string) ([]verif.Event, *RunResult) {
 // settledTotals: messages held per channel ("t/c": topic backlog + channel backlog, in flight, deferred) and per
 // channel-less topic ("t/"), read until two successive /stats agree (the topic pump may still be handing its backlog on)
 func settledTotals(nd *Node) (map[string]int64, bool) {
+	// POST /topic/pause is answered once the topic's pump has taken notice -- at its select, with no message in its hands:
+	// with every topic paused the numbers below are exact, not a reading taken while something is on its way
+	st0, _, err := nd.stats("")
+	if err != nil {
+		return nil, false
+	}
+	var paused []string
+	for _, ts := range st0.Topics {
+		if !ts.Paused {
+			if st, _, err := nd.post("/topic/pause?topic="+ts.Name, nil); err != nil || st != 200 {
+				return nil, false
+			}
+			paused = append(paused, ts.Name)
+		}
+	}
+	defer func() {
+		for _, t := range paused {
+			nd.post("/topic/unpause?topic="+t, nil)
+		}
+	}()
 	var last map[string]int64
-	for i := 0; i < 100; i++ {
+	for i := 0; i < 50; i++ {
 		st, _, err := nd.stats("")
 		if err != nil {
 			return nil, false
@@ -509,7 +529,7 @@ func settledTotals(nd *Node) (map[string]int64, bool) {
 			}
 		}
 		last = cur
-		time.Sleep(30 * time.Millisecond)
+		time.Sleep(20 * time.Millisecond)
 	}
 	return nil, false
 }
